@@ -25,12 +25,13 @@ def gen_poses(r):
     n_gt, n_pr, n_nodes = int(r.integers(1, 5)), int(r.integers(1, 5)), int(r.integers(1, 7))
     cls = str(r.choice(["normal", "normal", "huge", "tiny", "degenerate"]))
     unit = {"normal": 1 / 64, "huge": 16.0, "tiny": 2.0 ** -10, "degenerate": 1 / 64}[cls]
-    gt = r.integers(0, 12800, (n_gt, n_nodes, 2)).astype(np.float64) * unit
+    n_ed = 3 if r.random() < 0.15 else 2  # Euclidean dimensions (2-D or 3-D poses)
+    gt = r.integers(0, 12800, (n_gt, n_nodes, n_ed)).astype(np.float64) * unit
     noise = r.choice([0, 0, 1, 8, 200]) * unit
-    pr = np.empty((n_pr, n_nodes, 2))
+    pr = np.empty((n_pr, n_nodes, n_ed))
     for j in range(n_pr):
-        base = gt[int(r.integers(0, n_gt))] if r.random() < 0.7 else r.integers(0, 12800, (n_nodes, 2)) * unit
-        pr[j] = base + np.round(r.normal(0, 1, (n_nodes, 2)) * noise / unit) * unit
+        base = gt[int(r.integers(0, n_gt))] if r.random() < 0.7 else r.integers(0, 12800, (n_nodes, n_ed)) * unit
+        pr[j] = base + np.round(r.normal(0, 1, (n_nodes, n_ed)) * noise / unit) * unit
     if cls == "degenerate":
         for i in range(n_gt):
             mode = int(r.integers(0, 3))
@@ -165,7 +166,7 @@ def check_oks(ctx, c):
         miss = np.isnan(gt[i]).any(-1)
         if miss.any():
             p2 = pr.copy()
-            p2[:, miss] = r.normal(0, 100, (n_pr, int(miss.sum()), 2))
+            p2[:, miss] = r.normal(0, 100, (n_pr, int(miss.sum()), gt.shape[-1]))
             if r.random() < 0.5:
                 p2[:, miss] = np.nan
             sc = scale[i:i + 1] if isinstance(scale, np.ndarray) else scale
@@ -175,7 +176,7 @@ def check_oks(ctx, c):
                 ctx.violation("oks-missing-gt-not-ignored", f"changing predictions at nodes missing in gt {i} changed OKS {a.tolist()} -> {b.tolist()}", small)
     # a NaN predicted node scores like a node at infinity
     if np.isnan(pr).any():
-        p2 = np.where(np.isnan(pr).any(-1, keepdims=True), 1e15, pr)
+        p2 = np.where(np.isnan(pr).any(-1, keepdims=True), np.inf, pr)  # "at infinity" literally: 1e15 is not far once the normaliser (area^2 of a huge 3-D pose) reaches 1e29
         b = f(gt, p2)
         ctx.count("missing_pr_checks")
         if np.abs(o - b).max() > 1e-12:
@@ -187,7 +188,8 @@ def check_oks(ctx, c):
             continue
         d = pr[j, k] - gt[i, k]
         if not d.any():
-            d = np.array([c["unit"], 0.0])
+            d = np.zeros(gt.shape[-1])
+            d[0] = c["unit"]
         p2 = pr.copy()
         p2[j, k] = gt[i, k] + d * float(r.choice([2, 3, 17]))
         b = f(gt, p2)
@@ -195,7 +197,7 @@ def check_oks(ctx, c):
         if b[i, j] > o[i, j] + 1e-12:
             ctx.violation("oks-not-monotone", f"moving predicted node {k} farther from its target raised OKS[{i},{j}] {o[i, j]} -> {b[i, j]}", small)
     # translation (exact: dyadic coordinates, integer shift) and permutation
-    t = r.integers(-500, 500, 2).astype(float)
+    t = r.integers(-500, 500, gt.shape[-1]).astype(float)
     b = f(gt + t, pr + t)
     ctx.count("translation_checks")
     if np.abs(o - b).max() > 1e-9:
